@@ -658,8 +658,9 @@ func main() {
 		"assumptions": md.Assumptions, "wall_s": wall, "violations": len(newViol),
 	}
 	b, _ := json.MarshalIndent(ev, "", " ")
-	os.MkdirAll(filepath.Join(verifDir, "evidence"), 0o755)
-	if err := os.WriteFile(filepath.Join(verifDir, "evidence", id+".json"), b, 0o644); err != nil {
+	evDir := envOr("VERIF_EVIDENCE_DIR", filepath.Join(verifDir, "evidence")) // redirected only by the seeded-defect runner
+	os.MkdirAll(evDir, 0o755)
+	if err := os.WriteFile(filepath.Join(evDir, id+".json"), b, 0o644); err != nil {
 		fatal(2, "evidence: %v", err)
 	}
 	for k, v := range agg.Probes {
